@@ -160,6 +160,7 @@ func c16KeyFacts(cp *Pkg) []Fact {
 func factsC16(r *Repo) []Fact {
 	cp := r.Pkg("compose")
 	var out []Fact
+	out = append(out, transC16(r)) // gotrans phase 6: Gen/TransC16.lean (trans_c16.go)
 	out = append(out, c16KeyFacts(cp)...)
 	shape := map[string]bool{}
 	shapeOrder := []string{}
